@@ -270,7 +270,7 @@ def check(desc, col):
             f"metrics:{desc['mapper']['metrics']}",
             "n_instances>1" if desc.get("n_instances", 1) > 1 or any(e.get("n_instances", 1) > 1 for e in desc["einsums"]) else "n_instances=1"]
     try:
-        m = G.run_mapper(spec)
+        m = G.run_mapper2(spec)
     except G.Infeasible:
         col.case(desc, False, base + ["mapper:infeasible"])
         return
